@@ -125,4 +125,17 @@ META = {
         "level_note": "trusted: reference planner in vf/checks/c11.py (reading of the statement), audit-hook file tracer",
         "technique": "reference-model monitor (planner) vs observed compute log / file-system audit trace / directory listings on random graphs and stored subsets",
     },
+    "C12": {
+        "level_text": (
+            "The product of plugin kind {source, ordinary, multi-output, down-chunking, loop, cut, overlap-window} "
+            "x every violation kind applicable to it {wrong dtype as bare array / wrapped in a directly built "
+            "chunk / in a chunk claiming the declared dtype / via self.chunk, rows ending late or starting early, "
+            "foreign label, gap / overlap in the target, non-dict from multi-output, non-generator / non-chunk "
+            "from down-chunking} x position of the offending call {first, middle, last} x processor x storage is "
+            "enumerated; a monitor on the get_iter consumer checks that no yielded chunk violates the declared "
+            "contract, that the request raises, and that a fresh context does not see the offending data as stored."
+        ),
+        "level_note": "trusted: the injected violations are faithful to what a buggy plugin returns; chunks <= 500 rows",
+        "technique": "fault injection at the plugin boundary (enumerated) + consumer-side contract monitor on yielded chunks + post-run storage probe",
+    },
 }
